@@ -18,6 +18,7 @@ from mc.runner import Result
 
 PROPERTY = "C13"
 LEVEL = "model_checking"
+TECHNIQUE = "explicit-state model checking of real task graphs: BFS over all order ideals with purity/determinism digests, re-execution, pickling, read-only inputs, cross-call interference"
 ENGINE = "E3"
 RULE = (
     "state = order ideal (set of executed tasks) of a real flox task graph; transition = execute one ready task (the task "
